@@ -488,5 +488,7 @@ theorem actStep_inv {s s' : St} {t : Tid} (hI : Inv s) (h : actStep s t = some s
         simp only [hact] at h
         cases h
         exact inv_pure_act hI ht hT (by simp [hact, Act.pure]) heff hwfr hedt0 ⟨rfl, rfl, rfl, rfl⟩ rfl
+      | refuse =>
+        simp [hact] at h
 
 end DaliVerif.Async
